@@ -223,6 +223,7 @@ CHECKS = {
                        "That replay tolerates the missing entry at the queue level (gaps, re-created queues) is MultiRecordLog/MemQueues glue and not claimed."),
         "level_note": "trusted: kani-compiler, CBMC, CaDiCaL; ideal-checksum oracle (a damaged frame fails its check; CRC collisions excluded); ArrW/ArrR devices; cases where the reader's cursor would fork are cut one call after the failure (DESIGN B18)",
         "filters": ["c09_", "c08_crc_"],
+        "codegen_groups": {"16": [["c08_crc_"], ["c09_"]]},
         "quick": {"harnesses": [("16", "c09_crc_q*"), ("16", "c08_crc_*_q*")], "jobs": 14, "timeout": 1200},
         "thorough": {"harnesses": [("16", "c09_*"), ("16", "c08_crc_*"), ("32", "c09_crc_t32_*")], "jobs": 8, "timeout": 3000},
         "rule": ("case = (length triple, frame index, damage kind, variant); lengths pairwise distinct; hit frame enumerated over every frame of "
@@ -246,6 +247,7 @@ CHECKS = {
                        "completely. 'Only queue/position/payload of an earlier append' at the API is open_with_prefs glue and not claimed."),
         "level_note": "trusted: kani-compiler, CBMC, CaDiCaL; ideal-checksum oracle; from_utf8 stub (ASCII queue names); concrete payload patterns when a damaged length makes the reader parse payload bytes as headers",
         "filters": ["c08_"],
+        "codegen_groups": {"16": [["c08_crc_"], ["c08_hdr_", "c08_len_"]]},
         "quick": {"harnesses": [("16", "c08_hdr_q*"), ("16", "c08_len_q*"), ("16", "c08_crc_*_q*"), ("real", "c08_deser_q*")], "jobs": 14, "timeout": 1200},
         "thorough": {"harnesses": [("16", "c08_hdr_*"), ("16", "c08_len_*"), ("16", "c08_crc_*"), ("32", "c08_*_t32_*"), ("real", "c08_deser_*")], "jobs": 8, "timeout": 3000},
         "rule": ("stream cases = (length triple, frame, header damage kind, variant), all frames x all variants; entry cases = (buffer length N, "
@@ -271,6 +273,7 @@ CHECKS = {
                        "into ONE entry and applies it after the write is MultiRecordLog glue and not claimed."),
         "level_note": "trusted: kani-compiler, CBMC, CaDiCaL; ideal-checksum oracle; from_utf8 stub; forking cases cut one call after the failure (B18)",
         "filters": ["c12_", "c08_crc_"],
+        "codegen_groups": {"16": [["c08_crc_"], ["c12_"]]},
         "quick": {"harnesses": [("16", "c12_ent_*_q*"), ("16", "c12_cut_q*"), ("16", "c08_crc_*_q*"), ("real", "c12_batch_q*")], "jobs": 14, "timeout": 1500},
         "thorough": {"harnesses": [("16", "c12_ent_*"), ("16", "c12_big_*"), ("16", "c12_cut_*"), ("real", "c12_batch_*")], "jobs": 8, "timeout": 3600, "mem_gb": 16},
         "rule": "case = (frame of the large entry, damage kind, variant) or (cut offset) or (batch shape, truncation point); counted from the symex log",
